@@ -949,6 +949,8 @@ impl ConnectionPool {
         }
 
         guard[address.shard].insert(address.clone(), (reason, now));
+        #[cfg(pgcat_verif)]
+        simcore::observe::note("ban", format!("{}:{}", address.host, address.port));
     }
 
     /// Clear the replica to receive traffic again. Takes effect immediately
@@ -956,6 +958,8 @@ impl ConnectionPool {
     pub fn unban(&self, address: &Address) {
         let mut guard = self.banlist.write();
         guard[address.shard].remove(address);
+        #[cfg(pgcat_verif)]
+        simcore::observe::note("unban", format!("{}:{}", address.host, address.port));
     }
 
     /// Check if address is banned
@@ -995,6 +999,8 @@ impl ConnectionPool {
             let mut write_guard = self.banlist.write();
             warn!("Unbanning all replicas.");
             write_guard[address.shard].clear();
+            #[cfg(pgcat_verif)]
+            simcore::observe::note("unban_all", format!("{}", address.shard));
 
             return true;
         }
@@ -1022,6 +1028,8 @@ impl ConnectionPool {
             let mut write_guard = self.banlist.write();
             write_guard[address.shard].remove(address);
             drop(write_guard);
+            #[cfg(pgcat_verif)]
+            simcore::observe::note("unban_expired", format!("{}:{}", address.host, address.port));
 
             true
         } else {
